@@ -3,13 +3,18 @@
 (* domain, the L1 term of the bytes the operation must output, as JSON.       *)
 (* The harness evaluates the terms with primitive libraries independent of    *)
 (* the backend under test and compares with the real output (C03/C07/C13).    *)
-EXTENDS Construct, TLC, Json
+EXTENDS Construct, TLC, Json, IOUtils
 
 CONSTANTS MsgLens, FooterLens, AadLens, V1SecretLens,
           BigTuples      \* extra (message, footer, assertion) length triples around the buffer sizes a streaming writer might use
 
 BigQuick == {<<1023, 0, 0>>, <<1024, 0, 0>>, <<1025, 9, 7>>, <<4096, 0, 0>>, <<17, 1024, 0>>, <<17, 128, 129>>, <<0, 4097, 0>>, <<33, 60, 1100>>, <<512, 513, 0>>}
 BigThorough == BigQuick \cup {<<2048, 2049, 0>>, <<8192, 0, 0>>, <<16, 256, 255>>, <<255, 255, 255>>, <<65, 511, 64>>, <<1, 8192, 1>>}
+
+\* extra cases requested by the orchestrator (the length tuples, PBKW costs and v1 key lengths of the official test
+\* vectors, read from the vector files of the working tree): a JSON file named by PV_EXTRA, or "none"
+Extra == IF IOEnv.PV_EXTRA = "none" THEN [tuples |-> << >>, pw |-> << >>, v1secret |-> << >>] ELSE JsonDeserialize(IOEnv.PV_EXTRA)
+SeqSet(q) == {q[k] : k \in 1..Len(q)}
 
 VARIABLE c      \* the case descriptor being printed
 Init == c = <<"start">>
@@ -21,13 +26,14 @@ Next ==
   /\ \/ \E ver \in 1..4, ml \in MsgLens, fl \in FooterLens, al \in AadLens :
            /\ (al > 0 => ver \in {3, 4})
            /\ c' = <<"local", ver, ml, fl, al>> \/ c' = <<"public", ver, ml, fl, al>>
-     \/ \E ver \in 1..4, t \in BigTuples :
+     \/ \E ver \in 1..4, t \in BigTuples \cup SeqSet(Extra.tuples) :
            /\ (t[3] > 0 => ver \in {3, 4})
            /\ c' = <<"local", ver, t[1], t[2], t[3]>> \/ c' = <<"public", ver, t[1], t[2], t[3]>>
      \/ \E ver \in 1..4, kt \in {"local", "secret"} :
-           \E kl \in (IF kt = "secret" /\ ver = 1 THEN V1SecretLens ELSE {KeyLen(ver, kt)}) :
+           \E kl \in (IF kt = "secret" /\ ver = 1 THEN V1SecretLens \cup SeqSet(Extra.v1secret) ELSE {KeyLen(ver, kt)}) :
               \/ c' = <<"pie", ver, kt, kl>>
               \/ \E p \in 1..2 : c' = <<"pw", ver, kt, kl, p>>
+              \/ \E x \in SeqSet(Extra.pw) : x[1] = ver /\ c' = <<"pwx", ver, kt, kl, <<x[2], x[3], x[4]>>>>
      \/ \E ver \in 1..4 : c' = <<"pke-recv", ver>> \/ c' = <<"pke-send", ver>>
      \/ \E ver \in 1..4, kind \in {"local", "public", "secret"} :
            \E kl \in (CASE kind = "local" -> {32}
@@ -74,8 +80,8 @@ PieCase(ver, kt, kl) ==
 
 PwCost(ver, p) == IF ver \in {1, 3} THEN (IF p = 1 THEN <<1, 0, 0>> ELSE <<1000, 0, 0>>)
                   ELSE (IF p = 1 THEN <<8, 1, 1>> ELSE <<64, 2, 1>>)     \* (iterations | mem KiB, time, para)
-PwCase(ver, kt, kl, p) ==
-  LET cost == PwCost(ver, p)
+PwCaseCost(ver, kt, kl, cost) ==
+  LET
       pw == In("pw", 0)        \* the password's length does not enter the layout
       s == In("s", PwSaltLen(ver))
       n == In("n", PwNonceLen(ver))
@@ -84,6 +90,8 @@ PwCase(ver, kt, kl, p) ==
       data |-> IF ver \in {1, 3} THEN Pw13(ver, kt, pw, s, cost[1], n, ptk)
                ELSE Pw24(ver, kt, pw, s, cost[1], cost[2], cost[3], n, ptk),
       salt_len |-> PwSaltLen(ver), param_len |-> PwParamLen(ver), nonce_len |-> PwNonceLen(ver), len |-> PwLen(ver, kl)]
+
+PwCase(ver, kt, kl, p) == PwCaseCost(ver, kt, kl, PwCost(ver, p))
 
 PkeCase(ver, dir) ==
   LET pdk == In("pdk", 32) IN
@@ -116,6 +124,7 @@ CaseOf(d) ==
     [] d[1] = "public" -> PublicCase(d[2], d[3], d[4], d[5])
     [] d[1] = "pie" -> PieCase(d[2], d[3], d[4])
     [] d[1] = "pw" -> PwCase(d[2], d[3], d[4], d[5])
+    [] d[1] = "pwx" -> PwCaseCost(d[2], d[3], d[4], d[5])
     [] d[1] = "pke-recv" -> PkeCase(d[2], "recv")
     [] d[1] = "pke-send" -> PkeCase(d[2], "send")
     [] d[1] = "keyid" -> KeyIdCase(d[2], d[3], d[4])
